@@ -30,7 +30,7 @@ CLAIMS = {
           "Coq proof (interpolant endpoint identities, no-gap lookup) + bit-exact correspondence + dense-output oracles", "3/C06", True),
  "C07": C("Coq theorems for DOPRI5 (q=4), RK23 (q=3) and RK4's cubic Hermite (q=3), every dimension, h<>0 of either sign, every theta and stage values: (link, over the reals) the model's interpolant is the continuous Runge-Kutta formula y + h*sum_j b_j(theta) k_j with the weight polynomials assembled from the source constants; (order, exact rationals) those polynomials satisfy the continuous order conditions sum_j b_j(theta) Phi_j(t) = theta^|t|/gamma(t) for every rooted tree up to q, and DOPRI5's fail at order 5; the kernels produce attempts of the assumed shape. Uniform O(h^(q+1)) then follows by textbook theory (not formalised). Also: DOP853 (q=7), order part only: the 16-stage weight polynomials assembled from the source constants satisfy every continuous order condition up to order 7 (scaled integers, 1e-24) and fail at order 8; Radau: the dense output is the cubic through (0,y),(C1,y+Z1),(C2,y+Z2),(1,y+Z3), i.e. the collocation polynomial (order 3 by collocation theory). Not proved: the real-number link of DOP853's interpolate to its weight polynomials, BDF -- replay and slope experiment only." + TIE,
           "Coq proof (continuous order conditions over Qc + real-number link to the model's interpolant) + bit-exact correspondence + one-step slope experiment", "3/C07", True),
- "C08": C("Coq theorems: a reported event is a step endpoint with its stored state or (t_e, interpolant(t_e)); events of a step are a stable sort (permutation, ordered) of the detected ones; direction filter truth table (real semantics). Brent's bracket invariant is not yet a theorem." + TIE,
+ "C08": C("Coq theorems: a reported event is a step endpoint with its stored state or (t_e, interpolant(t_e)); events of a step are a stable sort (permutation, ordered) of the detected ones; direction filter truth table (real semantics); every reported event time and every point at which the event function is evaluated during the refinement lies inside the accepted step, for any event function, converged or not (real semantics of the Brent variant). Not theorems: that the bracket keeps a sign change, convergence within 100 iterations." + TIE,
           "Coq proof (handler model) + bit-exact correspondence incl. every Brent iterate", "3/C08", True),
  "C09": C("Coq theorems (real semantics): strictly opposite signs are always detected by All and by the matching one-sided filter only; equal strict signs never. Exactly-one-event for a single root is checked on grid-aware placements." + TIE,
           "Coq proof of the detection predicate + bit-exact correspondence", "3/C09", True),
